@@ -28,12 +28,22 @@ def gen_case(seed, i):
     rng = random.Random(stable_hash(seed, ID, i))
     w = World()
     files = []
+    # a third of the worlds: names with characters that are special somewhere (drive / path separators of other
+    # systems, bytes that are not UTF-8, shell and glob characters) - the mapping below DIR is byte-exact
+    hostile_names = rng.random() < 0.33
+    dirs_ = ["a", "b", "a/c"] if not hostile_names else ["a", "a:", "a/c\\d", b2s(b"a/\xffc"), "b b", "b:b/c", "C:"]
     for f in range(rng.randint(1, 4)):
         n = rng.choice([1, 30, 700, 70000 if rng.random() < 0.2 else 300])
         # every sixth family is SPARSE: some data, then a hole up to the end (or nothing but a hole)
         sp = rng.random() < 0.17
         for k in range(rng.randint(2, 4)):
-            p = "r/%s/f%dk%d" % (rng.choice(["a", "b", "a/c"]), f, k)
+            p = "r/%s/f%dk%d" % (rng.choice(dirs_), f, k)
+            if hostile_names:
+                # the same name with and without a character that a "clean-up" of names would drop or replace
+                p = "r/%s/f%s%dk%s%d" % (rng.choice(dirs_), rng.choice(["", ":", "\\", b2s(b"\xff"), b2s(b"\xfe"), b2s(b"\xef\xbf\xbd"), "?", "*"]), f,
+                                        rng.choice(["", ":", "\\", " ", "'"]), k)
+                if p in files:
+                    continue
             w.add_file(p, {"fam": f + 1, "len": 4096 if sp and f % 2 else (0 if sp else n), "tailhole": 200000 + f, "flips": []} if sp
                        else {"fam": f + 1, "len": n, "flips": []})
             files.append(p)
